@@ -559,6 +559,7 @@ fn sync_variants(c: &RunCfg, n: usize, h: u64) -> Vec<(String, RunCfg)> {
 }
 
 fn base_scn(id: String, n: usize, calls: Vec<BCall>, reads: Vec<Vec<usize>>, writes: Vec<Vec<usize>>) -> Scenario {
+    let id_hash = id.len() as u64 ^ id.bytes().map(|b| b as u64).sum::<u64>();
     Scenario {
         id,
         n,
@@ -572,6 +573,8 @@ fn base_scn(id: String, n: usize, calls: Vec<BCall>, reads: Vec<Vec<usize>>, wri
         threads: false,
         xdrop: false,
         watchdog: false,
+        // a third of all inputs add their up-front functions through `add_fns`
+        add_fns: n >= 1 && mix(n as u64, id_hash) % 3 == 0,
     }
 }
 
@@ -1185,6 +1188,8 @@ pub fn generate(p: &GenParams, out: &mut Out) {
                 x.signal_inside = rng.chance(1, 2);
                 let mut c = c;
                 random_sync(&mut rng, &mut c, n, x.max_fail);
+                x.max_signals = 1 + rng.below(4) / 3;
+                x.spurious_polls = !p.hooks && rng.chance(1, 4);
                 let sub = rng.next();
                 if !sel.take() {
                     continue;
@@ -1502,6 +1507,7 @@ pub fn generate(p: &GenParams, out: &mut Out) {
                     stream_style: *rng.pick(&[0u8, 0, 1, 2]),
                     multi_waker: rng.chance(1, 4),
                     late: 0,
+                    max_signals: 1 + rng.below(3) / 2,
                 };
                 let sub = rng.next();
                 if !sel.take() {
@@ -1616,6 +1622,7 @@ pub fn generate(p: &GenParams, out: &mut Out) {
                                     stream_style: 0,
                                     multi_waker: false,
                                     late: 0,
+                                    max_signals: 1,
                                 };
                                 let mode = if overlap { "overlap" } else { "seq" };
                                 let mut emit2 = |sc: &Scenario, t: &[Value]| {
